@@ -134,3 +134,15 @@ Definition rfc_config_pairs (mfs : N) (wt ec dg : bool) (wtmax : N) : list (N * 
   [(SETTINGS_MAX_FIELD_SECTION_SIZE, mfs); (SETTINGS_ENABLE_CONNECT_PROTOCOL, rfc_b2n ec);
    (SETTINGS_ENABLE_WEBTRANSPORT, rfc_b2n wt); (SETTINGS_H3_DATAGRAM, rfc_b2n dg);
    (SETTINGS_WEBTRANSPORT_MAX_SESSIONS, wtmax)].
+
+(* ---------- what a builder is expected to be: one option per setter; the last call of a setter wins; an
+   option that was never set keeps its default (field section size unlimited, grease on, the rest off / 0) ---------- *)
+Inductive opt := O_mfs | O_grease | O_wt | O_ec | O_dg | O_wtmax.
+Definition opt_n (o : opt) : N :=
+  match o with O_mfs => 0 | O_grease => 1 | O_wt => 2 | O_ec => 3 | O_dg => 4 | O_wtmax => 5 end.
+Definition opt_default (o : opt) : N :=
+  match o with O_mfs => rfc_unlimited | O_grease => 1 | _ => 0 end.
+Definition opt_value (calls : list (opt * N)) (o : opt) : N :=
+  fold_left (fun acc call => if opt_n (fst call) =? opt_n o then snd call else acc) calls (opt_default o).
+Definition client_opts : list opt := [O_mfs; O_grease; O_ec; O_dg].
+Definition server_opts : list opt := [O_mfs; O_grease; O_wt; O_ec; O_dg; O_wtmax].
